@@ -157,8 +157,9 @@ inductive Ex where
   | ref (n : String)     -- parameter of the method
   | lit (v : Val)
   | dyn                  -- computed from data (addresses, table keys, discovered chips)
-  | mask (n : String)    -- `1 << parameter`
-  deriving Repr
+  | mask (n : String)    -- `1 << parameter`, or `sum(1 << b for b in parameter)` when it is an iterable
+  | first (n : String)   -- the parameter, or its first element when it is an iterable (`boards[0]`)
+  deriving Repr, DecidableEq
 
 inductive Op where
   /-- `self._send_scp(x, y, p, cmd, ...)`; `app`: the application id the command carries, if the command carries one -/
@@ -255,7 +256,7 @@ def bmpBody : String → List Op
   | "send_scp" => [.bmp (Ex.ref "cabinet") (Ex.ref "frame") (Ex.ref "board") none]
   | "get_software_version" => [.bmp (Ex.ref "cabinet") (Ex.ref "frame") (Ex.ref "board") none]
   | "set_power" => [.bmp (Ex.ref "cabinet") (Ex.ref "frame") (Ex.lit (.int 0)) (some (.mask "board"))]  -- always sent to board 0
-  | "set_led" => [.bmp (Ex.ref "cabinet") (Ex.ref "frame") (Ex.ref "board") (some (.mask "board"))]
+  | "set_led" => [.bmp (Ex.ref "cabinet") (Ex.ref "frame") (Ex.first "board") (some (.mask "board"))]  -- to the first board named
   | "read_fpga_reg" => [.bmp (Ex.ref "cabinet") (Ex.ref "frame") (Ex.ref "board") none]
   | "write_fpga_reg" => [.bmp (Ex.ref "cabinet") (Ex.ref "frame") (Ex.ref "board") none]
   | "read_adc" => [.bmp (Ex.ref "cabinet") (Ex.ref "frame") (Ex.ref "board") none]
@@ -267,15 +268,34 @@ def bodyOf (cls m : String) : List Op :=
 def findSig (sigs : List Sig) (cls m : String) : Option Sig :=
   sigs.find? (fun s => s.cls = cls ∧ s.name = m)
 
+/-- the value bound to a parameter (`<unbound>` never occurs for the names a rule of `bodyOf` uses) -/
+def lookupV (bound : Dict) (n : String) : Val := (dget bound n).getD (.other "<unbound>")
+
+def maskSum : List Int → Option Nat
+  | [] => some 0
+  | b :: t => if 0 ≤ b then (maskSum t).map (· + (1 <<< b.toNat : Nat)) else none
+
+/-- `1 << board`, or `sum(1 << b for b in boards)` -/
+def maskVal : Val → Val
+  | .int b => if 0 ≤ b then .int ((1 <<< b.toNat : Nat) : Int) else .other "<mask>"
+  | .ints l => match maskSum l with
+    | some m => .int (m : Int)
+    | none => .other "<mask>"
+  | .dyn => .dyn
+  | _ => .other "<mask>"
+
+/-- `board if isinstance(board, int) else list(board)[0]` -/
+def firstVal : Val → Val
+  | .ints (h :: _) => .int h
+  | .ints [] => .other "<empty>"
+  | v => v
+
 def evalEx (bound : Dict) : Ex → Val
-  | .ref n => (dget bound n).getD (.other "<unbound>")
+  | .ref n => lookupV bound n
   | .lit v => v
   | .dyn => .dyn
-  | .mask n =>
-    match dget bound n with
-    | some (.int b) => if 0 ≤ b then .int ((1 <<< b.toNat : Nat) : Int) else .other "<mask>"
-    | some .dyn => .dyn
-    | _ => .other "<mask>"
+  | .mask n => maskVal (lookupV bound n)
+  | .first n => firstVal (lookupV bound n)
 
 def evalKw (bound : Dict) : List (String × Ex) → Dict
   | [] => []
@@ -304,6 +324,114 @@ def wire (sigs : List Sig) (cls : String) : Nat → String → Dict → List Dic
             | .ok b => wire sigs cls fuel m' b stack
 
 def wireFuel : Nat := 8
+
+/-! ## the wire rules, symbolically
+
+`absWire` runs `bodyOf` with *symbolic* arguments: every field of a request is an
+expression over the parameters of the method the caller invoked (`some e`), or
+`none` when an inner decorated call leaves the parameter to the context stack or
+its default.  It does not look at the stack, the passing style or any value.
+`Props/C18Wire.lean` proves it sound for `wire` (for all values and stacks) and
+checks the result against `ruleOk` for every generated signature. -/
+
+/-- symbolic environment: parameter of the current method -> expression over the caller's parameters -/
+abbrev AEnv := String → Option Ex
+
+def env0 : AEnv := fun n => some (.ref n)
+
+def subst (env : AEnv) : Ex → Option Ex
+  | .ref n => env n
+  | .lit v => some (.lit v)
+  | .dyn => some .dyn
+  | .mask n => match env n with
+    | some (.ref m) => some (.mask m)
+    | _ => none
+  | .first n => match env n with
+    | some (.ref m) => some (.first m)
+    | _ => none
+
+/-- the positional argument bound to parameter `n` -/
+def zipFind : List String → List Ex → String → Option Ex
+  | k :: ks, x :: xs, n => if k = n then some x else zipFind ks xs n
+  | _, _, _ => none
+
+/-- the keyword argument given for `n` (the last one, as `dict.update` keeps it) -/
+def kwLast : List (String × Ex) → String → Option Ex
+  | [], _ => none
+  | (k, e) :: t, n =>
+    match kwLast t n with
+    | some w => some w
+    | none => if k = n then some e else none
+
+/-- symbolic `resolve` + `bind` of an inner call `self.m'(*pos, **kw)`: positional, else keyword, else unknown -/
+def absEnv (s : Sig) (env : AEnv) (pos : List Ex) (kw : List (String × Ex)) : AEnv := fun n =>
+  match zipFind (s.argNames.drop 1) pos n with
+  | some x => subst env x
+  | none => (kwLast kw n).bind (subst env)
+
+structure APat where
+  kind : PKind
+  a : Option Ex
+  b : Option Ex
+  c : Option Ex
+  extra : Option (Option Ex)
+  deriving Repr, DecidableEq
+
+def absWire (sigs : List Sig) (cls : String) : Nat → String → AEnv → List APat
+  | 0, _, _ => []
+  | fuel + 1, m, env =>
+    (bodyOf cls m).flatMap fun op =>
+      match op with
+      | .scp x y p app => [⟨.scp, subst env x, subst env y, subst env p, app.map (subst env)⟩]
+      | .mem x y p => [⟨.mem, subst env x, subst env y, subst env p, none⟩]
+      | .bmp c f b mk => [⟨.bmp, subst env c, subst env f, subst env b, mk.map (subst env)⟩]
+      | .call m' pos kw =>
+        match findSig sigs cls m' with
+        | none => []
+        | some s => absWire sigs cls fuel m' (absEnv s env pos kw)
+
+/-- the symbolic requests of a method called by the user -/
+def rulesOf (sigs : List Sig) (s : Sig) : List APat := absWire sigs s.cls wireFuel s.name env0
+
+/-- where a MachineController request may go -/
+inductive Chip where
+  | own    -- the (x, y) resolved for the call
+  | root   -- (255, 255): the chip the initial connection talks to (broadcast commands, `root_chip`)
+  | data   -- computed from data: keys of a table argument, chips found in the P2P table
+  deriving Repr, DecidableEq
+
+def sigNames (s : Sig) : List String := s.argNames ++ keys s.kwOnly
+
+/-- methods whose documented job is to visit chips named by a data argument or discovered on the machine -/
+def dataAddressed : List String :=
+  ["discover_connections", "get_system_info", "load_routing_tables", "load_application"]
+
+/-- **the per-method addressing rule**, derived from the signature: a method that has
+contextual chip coordinates talks to that chip, one that has none to (255, 255) -/
+def chipRule (s : Sig) : List Chip :=
+  (if sigNames s |>.contains "x" then [Chip.own] else [Chip.root]) ++
+  (if dataAddressed.contains s.name then [Chip.data] else []) ++
+  (if s.name = "discover_connections" then [Chip.root] else [])
+
+def chipExprs : Chip → Ex × Ex
+  | .own => (.ref "x", .ref "y")
+  | .root => (.lit (.int 255), .lit (.int 255))
+  | .data => (.dyn, .dyn)
+
+/-- a symbolic request obeys the rule of the method the caller invoked -/
+def ruleOk (s : Sig) (ap : APat) : Bool :=
+  match ap.kind with
+  | .bmp =>
+    ap.a == some (.ref "cabinet") && ap.b == some (.ref "frame") &&
+    (ap.c == some (.ref "board") || ap.c == some (.first "board") ||
+      (s.name == "set_power" && ap.c == some (.lit (.int 0)))) &&
+    (ap.extra == none || ap.extra == some (some (.mask "board")))
+  | _ =>
+    (chipRule s).any (fun ch => ap.a == some (chipExprs ch).1 && ap.b == some (chipExprs ch).2) &&
+    (ap.extra == none || ap.extra == some (some (.ref "app_id")))
+
+/-- the core of some request is left to the context stack (not a function of the call's resolved arguments) -/
+def coreFromContext (sigs : List Sig) (s : Sig) : Bool := (rulesOf sigs s).any (fun ap => ap.c.isNone)
 
 /-! ## datagrams as observed on the (fake) connections -/
 
@@ -391,14 +519,17 @@ inductive Prog where
   | done
   /-- `raise SomeError` -/
   | raise
-  /-- `c.m(*pos, **kw)`; `caught`: wrapped in `try/except` by the caller -/
-  | call (id : Nat) (m : String) (pos : List Val) (kw : Dict) (caught : Bool) (next : Prog)
+  /-- `c.m(*pos, **kw)`; `caught`: wrapped in `try/except` by the caller; `fails`: the method body
+  raises after resolution (SCP error, failed allocation, ...) - whatever it has sent stays sent -/
+  | call (id : Nat) (m : String) (pos : List Val) (kw : Dict) (caught : Bool) (fails : Bool) (next : Prog)
   /-- `c.update_current_context(**kv)` -/
   | update (kv : Dict) (next : Prog)
-  /-- `with c(**ctx): body` -/
-  | block (id : Nat) (ctx : Dict) (body : Prog) (next : Prog)
-  /-- `with mc.application(*pos, **kw): body`; `stopFails`: the stop signal's send raises -/
-  | app (id : Nat) (pos : List Val) (kw : Dict) (stopFails : Bool) (body : Prog) (next : Prog)
+  /-- `with c(**ctx): body`; `cb`: the `before_close` callbacks registered on the context, run in
+  order inside the context on every exit (a statement sequence: one that raises skips the rest) -/
+  | block (id : Nat) (ctx : Dict) (body : Prog) (cb : Prog) (next : Prog)
+  /-- `with mc.application(*pos, **kw): body`; `stopFails`: the stop signal's send raises;
+  `cb`: callbacks registered by the user on the returned context (they run after the stop signal) -/
+  | app (id : Nat) (pos : List Val) (kw : Dict) (stopFails : Bool) (body : Prog) (cb : Prog) (next : Prog)
   /-- `try: body` / `except Exception: pass` -/
   | attempt (body : Prog) (next : Prog)
   deriving Repr
@@ -460,9 +591,9 @@ structure Res where
 def exec (E : Env) : List Dict → Prog → Res
   | s, .done => ⟨s, [], false⟩
   | s, .raise => ⟨s, [], true⟩
-  | s, .call id m pos kw caught next =>
+  | s, .call id m pos kw caught fails next =>
     let r := callRes E m pos kw s
-    if r.isRejected && !caught then ⟨s, [.call id r], true⟩
+    if (r.isRejected || fails) && !caught then ⟨s, [.call id r], true⟩
     else
       let n := exec E s next
       ⟨n.stack, .call id r :: n.evs, n.raised⟩
@@ -471,16 +602,17 @@ def exec (E : Env) : List Dict → Prog → Res
     let b := exec E s body
     let n := exec E b.stack next
     ⟨n.stack, b.evs ++ n.evs, n.raised⟩
-  | s, .block id ctx body next =>
-    -- Context.__enter__: push; body; Context.__exit__: (no callbacks) pop
+  | s, .block id ctx body cb next =>
+    -- Context.__enter__: push; body; Context.__exit__: callbacks (try), pop (finally)
     let b := exec E (dictOf ctx :: s) body
-    let s' := b.stack.tail
-    let evs := Ev.enter id (merged (dictOf ctx :: s)) :: (b.evs ++ [Ev.exit id none (merged s')])
-    if b.raised then ⟨s', evs, true⟩
+    let c := exec E b.stack cb
+    let s' := c.stack.tail
+    let evs := Ev.enter id (merged (dictOf ctx :: s)) :: (b.evs ++ c.evs ++ [Ev.exit id none (merged s')])
+    if b.raised || c.raised then ⟨s', evs, true⟩
     else
       let n := exec E s' next
       ⟨n.stack, evs ++ n.evs, n.raised⟩
-  | s, .app id pos kw stopFails body next =>
+  | s, .app id pos kw stopFails body cb next =>
     -- `mc.application(..)` is itself a decorated call; it builds `self(app_id=app_id)`
     match findSig E.sigs E.cls "application" with
     | none => ⟨s, [.call id (.rejected .bind)], true⟩
@@ -490,11 +622,13 @@ def exec (E : Env) : List Dict → Prog → Res
       | .ok bound =>
         let ctx : Dict := [("app_id", (dget bound "app_id").getD .none)]
         let b := exec E (ctx :: s) body
-        -- before_close callback: `self.send_signal("stop")`, resolved now; then (finally) pop
+        -- first before_close callback: `self.send_signal("stop")`, resolved now
         let stop := callRes E "send_signal" [.other "'stop'"] [] b.stack
-        let s' := b.stack.tail
-        let evs := Ev.enter id (merged (ctx :: s)) :: (b.evs ++ [Ev.exit id (some stop) (merged s')])
-        if b.raised || stop.isRejected || stopFails then ⟨s', evs, true⟩
+        -- then the user's callbacks, unless the stop signal raised; then (finally) pop
+        let c := if stop.isRejected || stopFails then (⟨b.stack, [], true⟩ : Res) else exec E b.stack cb
+        let s' := c.stack.tail
+        let evs := Ev.enter id (merged (ctx :: s)) :: (b.evs ++ c.evs ++ [Ev.exit id (some stop) (merged s')])
+        if b.raised || c.raised then ⟨s', evs, true⟩
         else
           let n := exec E s' next
           ⟨n.stack, evs ++ n.evs, n.raised⟩
@@ -515,7 +649,10 @@ def valOfJson : Json → R Val
       | _ =>
         match j.getObjVal? "dyn" with
         | .ok _ => pure .dyn
-        | _ => .error "bad value"
+        | _ =>
+          match j.getObjVal? "l" with
+          | .ok (.arr a) => do pure (.ints (← a.toList.mapM asInt))
+          | _ => .error "bad value"
 
 def valToJson : Val → Json
   | .none => .null
@@ -524,6 +661,7 @@ def valToJson : Val → Json
   | .other s => Json.mkObj [("o", .str s)]
   | .required => Json.mkObj [("req", jNat 1)]
   | .dyn => Json.mkObj [("dyn", jNat 1)]
+  | .ints l => Json.mkObj [("l", jInts l)]
 
 /-- dicts travel as arrays of `[key, value]` pairs (order matters) -/
 def dictOfJson (j : Json) : R Dict := do
@@ -570,6 +708,14 @@ def evToJson : Ev → Json
 
 partial def progOfJson (j : Json) : R Prog := do
   -- a JSON array of statements
+  let optBool (st : Json) (k : String) : R Bool :=
+    match st.getObjVal? k with
+    | .ok (.bool b) => pure b
+    | _ => pure false
+  let optProg (st : Json) (k : String) : R Prog :=
+    match st.getObjVal? k with
+    | .ok v => progOfJson v
+    | .error _ => pure .done
   let rec go : List Json → R Prog
     | [] => pure .done
     | st :: rest => do
@@ -577,15 +723,15 @@ partial def progOfJson (j : Json) : R Prog := do
       | "raise" => pure .raise
       | "call" =>
         pure (.call (← nat st "id") (← str st "m") (← valsOfJson (← field st "pos"))
-          (← dictOfJson (← field st "kw")) (← bool st "caught") (← go rest))
+          (← dictOfJson (← field st "kw")) (← bool st "caught") (← optBool st "fails") (← go rest))
       | "try" => pure (.attempt (← progOfJson (← field st "body")) (← go rest))
       | "update" => pure (.update (← dictOfJson (← field st "kv")) (← go rest))
       | "block" =>
         pure (.block (← nat st "id") (← dictOfJson (← field st "ctx"))
-          (← progOfJson (← field st "body")) (← go rest))
+          (← progOfJson (← field st "body")) (← optProg st "cb") (← go rest))
       | "app" =>
         pure (.app (← nat st "id") (← valsOfJson (← field st "pos")) (← dictOfJson (← field st "kw"))
-          (← bool st "stop_fails") (← progOfJson (← field st "body")) (← go rest))
+          (← bool st "stop_fails") (← progOfJson (← field st "body")) (← optProg st "cb") (← go rest))
       | s => .error s!"unknown statement {s}"
   go (← asArr j)
 
@@ -632,8 +778,11 @@ def handle (op : String) (j : Json) : R Json := do
         let conns ← (← arr j "bmp_conns").mapM intsOfJson
         pure (ds.all (connOkBmp conns pats))
       else do
+        -- each datagram is judged against the connection table in force when it was sent
+        -- (its own "cfg" snapshot if it carries one, else the table of the case)
         let cfg ← cfgOfJson (← field j "cfg")
-        pure (ds.all (connOkMc cfg))
+        let cfgs ← (← arr j "datagrams").mapM (fun dj => opt dj "cfg" cfgOfJson)
+        pure ((ds.zip cfgs).all (fun dc => connOkMc (dc.2.getD cfg) dc.1))
     let bad := (ds.zipIdx.filter (fun di => !(pats.any (·.matches di.1)))).map (·.2)
     pure (Json.mkObj [("dest", .bool dest), ("conn", .bool conn), ("bad", jNats bad),
       ("extras", jList (ds.map fun d => jOpt jNat d.extra)),
@@ -651,7 +800,12 @@ def handle (op : String) (j : Json) : R Json := do
     pure (.bool ((← dictOfJson (← field j "before")) == (← dictOfJson (← field j "after"))))
   | "sigs" =>
     pure (jList (Rig.Gen.Signatures.sigs.map fun s => Json.mkObj [("cls", .str s.cls), ("name", .str s.name),
-      ("wf", .bool s.wf), ("body", jNat (bodyOf s.cls s.name).length)]))
+      ("wf", .bool s.wf), ("body", jNat (bodyOf s.cls s.name).length),
+      ("rule_ok", .bool ((rulesOf Rig.Gen.Signatures.sigs s).all (ruleOk s))),
+      ("n_rules", jNat (rulesOf Rig.Gen.Signatures.sigs s).length),
+      ("chip_known", .bool ((rulesOf Rig.Gen.Signatures.sigs s).all
+        (fun ap => ap.a.isSome && ap.b.isSome && ap.extra != some none))),
+      ("core_from_context", .bool (coreFromContext Rig.Gen.Signatures.sigs s))]))
   | _ => .error s!"unknown op {op}"
 
 end Rig.C18
